@@ -117,7 +117,10 @@ def install_xml(it: Interp, vfs: VFS) -> None:
         e = to_et(el)
         if getattr(el, "_indent", None) is not None:
             ET.indent(e, space=el._indent[0], level=el._indent[1])
-        return ET.tostring(e, encoding=encoding, method=method, **kw)
+        try:
+            return ET.tostring(e, encoding=encoding, method=method, **kw)
+        except LookupError as exc:
+            raise AbsRaise(f"LookupError: {exc}") from exc
 
     def indent(tree: Any, space: str = "  ", level: int = 0) -> None:
         el = tree.getroot() if isinstance(tree, XTree) else tree
